@@ -46,6 +46,10 @@ def checkCase (j : Json) : Except String Verdict := do
     v := v.br (if boolD ov "overlapped" then "overlap/overlapped" else "overlap/not-overlapped")
     v := { v with nontrivial := true }
     v := v.cmp 0 "overlap.status" (200, 200) (intD ov "statusA", intD ov "statusB") ["C12"]
+    -- the slow upload with other clients' requests in between: every backend request carries its own client's cookies
+    v := v.cmp 0 "overlap.slow" ((200 : Int), (41 : Int), ([] : List String)) (intD ov "slowStatus", intD ov "slowReached", strs ov "cookieMixups") ["C03"]
+    for m in strs ov "cookieMixups" do
+      v := v.mon "C03" "cookies_forwarded_minus_session" 0 s!"(requests in flight together) {m}"
     for k in ["A", "B"] do
       if strD ov ("recv" ++ k) != strD ov ("sent" ++ k) then
         v := v.mon "C12" "body_intact" 0 s!"upload {k} (overlapping another upload): sent {strD ov ("sent" ++ k)}, upstream received {strD ov ("recv" ++ k)}"
